@@ -24,6 +24,8 @@ type Prop struct {
 	QuickSecs, ThoroughSecs int
 	// RunsPerJob: how many run indices one worker job covers.
 	RunsPerJob int
+	// GlobalRand: run every program in a subtest with testing/cryptotest.SetGlobalRandom(t, Cfg["grand"]+1).
+	GlobalRand bool
 	// Init, if set, runs once per worker process before any run (model self-tests, fixtures).
 	Init func() error
 }
